@@ -440,6 +440,32 @@ def run_mp(i):
     return {"i": i, "viol": v, "events": len(hist)}
 
 
+def run_deep(depth):
+    """One thread nests `depth` nOS-V task bodies, each over the paused one below (x1 p1 x2 p2 ... xN),
+    and unwinds them again: a legal history whatever the depth (judged like the multi-process ones)."""
+    import c06, tracegen
+    chk, build = _CTX["chk"], _CTX["plain"]
+    desc = tracegen.simple_system(nthreads=1, ncpus=1)
+    key = tracegen.all_keys(desc)[0]
+    u = obs.u32
+    evs = [("OHx", obs.i32(0, key[2], 0), False), ("VYc", u(1) + b"deep\0", True)]
+    evs += [("VTc", u(t, 1), False) for t in range(1, depth + 1)]
+    for t in range(1, depth):
+        evs += [("VTx", u(t, 0), False), ("VTp", u(t, 0), False)]
+    evs += [("VTx", u(depth, 0), False), ("VTe", u(depth, 0), False)]
+    for t in range(depth - 1, 0, -1):
+        evs += [("VTr", u(t, 0), False), ("VTe", u(t, 0), False)]
+    evs.append(("OHe", b"", False))
+    hist = [(7000 + 3 * n, key, m, p, j) for n, (m, p, j) in enumerate(evs)]
+    case = {"desc": desc, "enabled": "V", "marks": {}, "hist": hist, "lint": depth % 2 == 0}
+    wd = os.path.join(chk.scratch, "deep-%d" % os.getpid())
+    try:
+        v, st = c06.judge_case(case, build, wd)
+    finally:
+        shutil.rmtree(wd, ignore_errors=True)
+    return {"i": depth, "viol": v, "events": len(hist)}
+
+
 def main(argv):
     chk = core.Check("C07", "exploration", argv)
     asan = chk.build("asan", ["emu", "parson-static", "common-static"])
@@ -476,7 +502,17 @@ def main(argv):
             nmp += 1
             if v:
                 chk.report("multi-process:" + v[0], v[1], {"mp": res["i"], "observation": v[2] if len(v) > 2 else None})
-    cov = {"evaluations": na + nb + nmp, "distinct_nontrivial": da + len(seen), "multi_process_histories": nmp,
+    ndeep = 0
+    if not chk.replay:
+        # depths around the powers of two up to 500 (the deepest the unchanged emulator was seen to take)
+        for res in core.pmap(run_deep, [255, 256, 257, 300] if quick else [63, 64, 65, 127, 128, 129, 255, 256, 257, 300, 400, 500]):
+            v = res["viol"]
+            if v and v[0] == "inconclusive":
+                chk.note_inconclusive(v[1]); continue
+            ndeep += 1
+            if v:
+                chk.report("deep-nesting:" + v[0], "%d nested bodies: %s" % (res["i"], v[1]), {"depth": res["i"]})
+    cov = {"evaluations": na + nb + nmp + ndeep, "deep_nesting_histories": ndeep, "distinct_nontrivial": da + len(seen), "multi_process_histories": nmp,
            "rule": "(A) real task.c/body.c in-process (ASan+UBSan): for 17 flag combinations of {parallel, resurrect, pause, "
                    "relax-nesting}, every legal prefix of bounded length over execute/pause/resume/end x {A1,A2,B1,C1,C2} x 2 "
                    "stacks extended by every next op (return code of the next op and the running body per stack compared) + "
